@@ -50,7 +50,7 @@ type cfg struct {
 	DR      bool
 	Label   string
 	P, D    int
-	AsyncOK bool
+	Timeout int64 // wait-async-timeout in ms (0: none)
 }
 type status struct {
 	State string // Sync Async SyncRecover
@@ -74,6 +74,8 @@ type op struct {
 	Int    bool
 	StID   uint64
 	Down   bool
+	Dt     int64  // advance: ms
+	Member uint64 // member: PD member id
 }
 type boot struct {
 	C       cfg
@@ -107,7 +109,7 @@ func (s store) coq() string {
 	return fmt.Sprintf("(Store %s %s %s %s %s)", coqfmt.ZU(s.ID), qs("zone"), s.DC, coqfmt.Bool(s.Down), coqfmt.Bool(s.Tomb))
 }
 func (c cfg) coq() string {
-	return fmt.Sprintf("(Config %s %s %s %s %s)", coqfmt.Bool(c.DR), qs(c.Label), coqfmt.Z(int64(c.P)), coqfmt.Z(int64(c.D)), coqfmt.Bool(c.AsyncOK))
+	return fmt.Sprintf("(Config %s %s %s %s %s)", coqfmt.Bool(c.DR), qs(c.Label), coqfmt.Z(int64(c.P)), coqfmt.Z(int64(c.D)), coqfmt.Z(c.Timeout))
 }
 func (s status) coq() string { return fmt.Sprintf("(Status %s %s)", s.State, coqfmt.ZU(s.ID)) }
 func optStatus(s *status) string {
@@ -139,6 +141,10 @@ func (o op) coq() string {
 		return fmt.Sprintf("OReport %s %s %s", coqfmt.ZU(o.RID), coqfmt.ZU(o.SID), coqfmt.Bool(o.Int))
 	case "store":
 		return fmt.Sprintf("OStore %s %s", coqfmt.ZU(o.StID), coqfmt.Bool(o.Down))
+	case "advance":
+		return "OAdvance " + coqfmt.Z(o.Dt)
+	case "member":
+		return "OMember " + coqfmt.ZU(o.Member)
 	}
 	panic("bad op")
 }
@@ -218,6 +224,23 @@ type world struct {
 	stop  context.CancelFunc
 	notes map[string]bool
 	regs  []region // current layout, by position
+	// the virtual clock (ms): the code reads time.Now(), so before every tick the manager's creation time and the members'
+	// confirmation times are placed (through the hook) as far in the real past as they are in the virtual one; all virtual
+	// distances are multiples of 10 s and no timeout is, so the few microseconds of real time in between never decide
+	vnow     int64
+	vmembers map[uint64]int64
+}
+
+func (w *world) placeClock() {
+	it, members := w.m.VerifC19Clock()
+	now := time.Now()
+	*it = now.Add(-time.Duration(w.vnow) * time.Millisecond) // created at virtual time 0
+	for id := range members {
+		delete(members, id)
+	}
+	for id, t := range w.vmembers {
+		members[id] = now.Add(-time.Duration(w.vnow-t) * time.Millisecond)
+	}
 }
 
 func (c cfg) real() config.ReplicationModeConfig {
@@ -225,10 +248,7 @@ func (c cfg) real() config.ReplicationModeConfig {
 	if c.DR {
 		mode = "dr-auto-sync"
 	}
-	at := time.Duration(0)
-	if !c.AsyncOK {
-		at = 1000 * time.Hour
-	}
+	at := time.Duration(c.Timeout) * time.Millisecond
 	return config.ReplicationModeConfig{ReplicationMode: mode, DRAutoSync: config.DRAutoSyncReplicationConfig{
 		LabelKey: c.Label, Primary: "p", DR: "d", PrimaryReplicas: c.P, DRReplicas: c.D,
 		WaitStoreTimeout: typeutil.NewDuration(time.Minute), WaitSyncTimeout: typeutil.NewDuration(time.Minute),
@@ -313,6 +333,7 @@ func newWorld(b boot) *world {
 		panic(err)
 	}
 	w.m = m
+	w.vnow, w.vmembers = 0, map[uint64]int64{}
 	return w
 }
 
@@ -365,8 +386,14 @@ func (w *world) arm(f fault) {
 func (w *world) exec(o op, label *string) string {
 	r := "ROk"
 	switch o.K {
+	case "advance":
+		w.vnow += o.Dt
+	case "member":
+		w.m.UpdateMemberWaitAsyncTime(o.Member) // the real call (records time.Now()); re-placed before the next tick
+		w.vmembers[o.Member] = w.vnow
 	case "tick":
 		w.arm(o.F)
+		w.placeClock()
 		w.m.VerifC19TickDR()
 	case "config":
 		w.arm(o.F)
@@ -459,6 +486,12 @@ func gen(r *rng.R, sh *shadow, nextRID *uint64, malformed bool) op {
 	if !ft.Save && r.Pct(7) {
 		ft.Alloc, ft.AIdx = true, r.Pick(80, 20)
 	}
+	if r.Pct(10) {
+		if r.Pct(65) {
+			return op{K: "advance", Dt: []int64{10000, 30000, 60000, 70000, 130000}[r.Intn(5)]}
+		}
+		return op{K: "member", Member: uint64(1 + r.Intn(2))}
+	}
 	switch r.Pick(40, 8, 14, 16, 22) {
 	case 0:
 		return op{K: "tick", F: ft}
@@ -470,7 +503,7 @@ func gen(r *rng.R, sh *shadow, nextRID *uint64, malformed bool) op {
 		case 1:
 			c.Label = []string{"zone", "dc"}[r.Intn(2)]
 		case 2:
-			c.AsyncOK = !c.AsyncOK
+			c.Timeout = []int64{0, 65000, 65000, 125000}[r.Intn(4)]
 		case 3:
 			c.P, c.D = 1+r.Intn(3), 1+r.Intn(2)
 		}
@@ -575,7 +608,7 @@ func (c caseRec) coq() string {
 }
 
 func genBoot(r *rng.R) boot {
-	b := boot{C: cfg{DR: r.Pct(85), Label: "zone", P: 1 + r.Intn(3), D: 1 + r.Intn(2), AsyncOK: r.Pct(80)}, ID0: uint64(10 + r.Intn(5)),
+	b := boot{C: cfg{DR: r.Pct(85), Label: "zone", P: 1 + r.Intn(3), D: 1 + r.Intn(2), Timeout: []int64{0, 0, 65000, 65000, 125000}[r.Intn(5)]}, ID0: uint64(10 + r.Intn(5)),
 		Batch: []int{1, 2, 3, 4, 1024}[r.Intn(5)]}
 	if r.Pct(35) {
 		b.St = &status{State: []string{"Sync", "Async", "SyncRecover"}[r.Intn(3)], ID: uint64(3 + r.Intn(4))}
